@@ -1,7 +1,7 @@
 /* C07 whole-program harness: the real qmail-smtpd.c main() (commands loop, smtp_data, blast, put) + the real qmail.c
  * against the stand-in queue program.  timeoutread.o / timeoutwrite.o are replaced by the scripted client.
  * usage: c07_smtpd <nrandom> <seed> <shard> <nshards>   |   c07_smtpd -   (case lines on stdin)
- * payload of a case: <helo|~> <sender> <rcpt,rcpt,...|-> <stream after DATA> <cut|-1>
+ * payload of a case: <helo|!helo|~> <sender> <rcpt,rcpt,...|-> <stream after DATA> <cut|-1>      ("!" in front: EHLO instead of HELO)
  *   the session sent is  [HELO helo CRLF] MAIL FROM:<sender> CRLF (RCPT TO:<rcpt> CRLF)* DATA CRLF stream , truncated to
  *   `cut` bytes when cut >= 0 (client disconnect).  A sixth payload field is appended to the answer: the length of the
  *   command part (everything before `stream`). */
@@ -25,7 +25,7 @@ ssize_t timeoutwrite(int t, int fd, const void *buf, size_t len) { hbuf_add(&c07
 static void one(c07_case *c) {
   static unsigned char tmp[1 << 21]; hbuf s = {0};
   if (c->npay < 5) return;
-  if (c->pay[0][0] != '~') { size_t l = c07_unhex(c->pay[0], tmp); hbuf_add(&s, "HELO ", 5); if (l) hbuf_add(&s, tmp, l); hbuf_add(&s, "\r\n", 2); }
+  if (c->pay[0][0] != '~') { int e = c->pay[0][0] == '!'; size_t l = c07_unhex(c->pay[0] + e, tmp); hbuf_add(&s, e ? "EHLO " : "HELO ", 5); if (l) hbuf_add(&s, tmp, l); hbuf_add(&s, "\r\n", 2); }
   { size_t l = c07_unhex(c->pay[1], tmp); hbuf_add(&s, "MAIL FROM:<", 11); if (l) hbuf_add(&s, tmp, l); hbuf_add(&s, ">\r\n", 3); }
   if (c->pay[2][0] != '-') {
     char *cp = strdup(c->pay[2]);
@@ -38,7 +38,7 @@ static void one(c07_case *c) {
   long cut = atol(c->pay[4]);
   size_t n = s.n; if (cut >= 0 && (size_t)cut < n) n = cut;
   c07_setup(c, s.p, n);
-  ssin.p = 0; ssin.n = sizeof ssinbuf; ssout.p = 0; seenmail = 0; databytes = 0; bytestooverflow = 0; timeout = 1200; flagbarf = 0;
+  ssin.p = 0; ssin.n = sizeof ssinbuf; ssout.p = 0; seenmail = 0; databytes = 0; bytestooverflow = 0; timeout = 1200; flagbarf = 0; binqqargs[0] = 0;
   int code;
   h_exit_armed = 1;
   if (setjmp(h_jb) == 0) { smtpd_main(); code = -1; } else code = h_exitcode;
@@ -51,8 +51,10 @@ static void one(c07_case *c) {
   free(s.p);
 }
 
+static char *emit_helohex;     /* when set: the first payload field as it is (hex, "!" in front for EHLO); consumed by the next emit() */
 static void emit(c07_case *c, const char *helo, const char *sender, int nr, const char **rcpts, const void *stream, size_t sn, long cut) {
-  c->pay[0] = helo ? c07_hexs(helo) : strdup("~");
+  if (emit_helohex) { c->pay[0] = emit_helohex; emit_helohex = 0; }
+  else c->pay[0] = helo ? c07_hexs(helo) : strdup("~");
   c->pay[1] = c07_hexs(sender);
   if (nr == 0) c->pay[2] = strdup("-");
   else { size_t tot = 1; for (int i = 0; i < nr; i++) tot += 2 * strlen(rcpts[i]) + 2; char *l = malloc(tot); l[0] = 0;
@@ -186,6 +188,66 @@ static void enumerate(void) {
   }
 }
 
+/* every byte value in every peer-supplied string (HELO and EHLO argument included); address lengths 0..1030 in every role */
+static void enumerate2(void) {
+  c07_case c;
+  for (unsigned k = 0; k < C07_NPEERV; k++) {
+    if (!c07_mine()) continue;
+    char *helo; c07_peer_variant(&c, 'S', k, &helo); emit_helohex = helo;
+    emit(&c, 0, "s@x", 1, R2, LIT(MSG), -1); c07_free(&c);
+  }
+  for (int role = 0; role < 5; role++) for (int i = 0; c07_addrlen(i) >= 0; i++) {
+    if (!c07_mine()) continue;
+    int len = c07_addrlen(i);
+    char *a = fill(len, 'q', "@ok.example"); const char *rr[3] = { "first@ok.example", a, "last@ok.example" };
+    c07_defaults(&c, 'S', len + role);
+    if (role == 4) { free(c.env[5]); c.env[5] = c07_hexs("@r"); }
+    if (role == 0) emit(&c, 0, a, 2, R2, LIT(MSG), -1);
+    if (role == 1) emit(&c, "h.example", "s@x.example", 1, rr + 1, LIT(MSG), -1);
+    if (role == 2 || role == 4) emit(&c, 0, "s@x.example", 3, rr, LIT(MSG), -1);
+    if (role == 3) emit(&c, 0, "", 2, rr, LIT(MSG), -1);
+    c07_free(&c); free(a);
+  }
+}
+
+/* Real-queue leg (protocol letter 's'): the real qmail-queue behind the real qmail.c.  Clean sessions (short, body > 1 KiB and
+ * > 8 KiB, envelope > 1 KiB) must be acknowledged and committed exactly; a disconnect at every 37th (thorough: 7th) byte of the session (commands and
+ * commands), a stray LF, 100 hops, a message over databytes, a failing write to the queue program must commit nothing. */
+static void enumerate_real(void) {
+  c07_case c;
+  static char rb[60][40]; const char *rr[60];
+  for (int i = 0; i < 60; i++) { snprintf(rb[i], 40, "user%d@host%d.sub.example", i, i % 9); rr[i] = rb[i]; }
+  hbuf big = {0}, huge = {0}, hops = {0};
+  for (int i = 0; i < 40; i++) hbuf_add(&big, LIT("0123456789012345678901234567890123456789\r\n")); hbuf_add(&big, LIT(".\r\nQUIT\r\n"));
+  for (int i = 0; i < 220; i++) hbuf_add(&huge, LIT("..23456789012345678901234567890123456789\r\n")); hbuf_add(&huge, LIT(".\r\nQUIT\r\n"));
+  for (int i = 0; i < 100; i++) hbuf_add(&hops, LIT("Received: by x\r\n")); hbuf_add(&hops, LIT("\r\nb\r\n.\r\nQUIT\r\n"));
+  for (int k = 0; k < 12; k++) {
+    if (!c07_mine()) continue;
+    c07_defaults(&c, 's', k);
+    if (k == 0) emit(&c, 0, "s@x", 2, R2, LIT(MSG), -1);
+    if (k == 1) emit(&c, "he.lo", "", 4, RMIX, LIT(MSG), -1);
+    if (k == 2) emit(&c, 0, "s@x", 2, R2, big.p, big.n, -1);
+    if (k == 3) emit(&c, 0, "s@x", 60, rr, huge.p, huge.n, -1);
+    if (k == 4) emit(&c, 0, "s@x", 1, R2, hops.p, hops.n, -1);
+    if (k == 5) { c.databytes = 50; emit(&c, 0, "s@x", 60, rr, big.p, big.n, -1); }
+    if (k == 6) emit(&c, 0, "s@x", 1, R2, LIT("a\nb\r\n.\r\nQUIT\r\n"), -1);
+    if (k == 7) emit(&c, 0, "s@x", 1, R2, LIT("abc\r\n"), -1);
+    if (k == 8) { c.wfault = 1; emit(&c, 0, "s@x", 2, R2, LIT(MSG), -1); }
+    if (k == 9) { c.wfault = 2; emit(&c, 0, "s@x", 60, rr, big.p, big.n, -1); }
+    if (k == 10) { c.wfault = 3; emit(&c, 0, "s@x", 60, rr, huge.p, huge.n, -1); }
+    if (k == 11) { free(c.env[5]); c.env[5] = c07_hexs("@relay.example"); emit(&c, "x", "s@x", 60, rr, LIT(MSG), -1); }
+    c07_free(&c);
+  }
+  { size_t cmd = 15 + 60 * 40 + 6, total = cmd + big.n;       /* upper bound of the session length; the harness clips the cut */
+    for (size_t k = 0; k <= total; k += (c07_thorough ? 7 : 37)) {
+      if (!c07_mine()) continue;
+      c07_defaults(&c, 's', (unsigned)k); c.chunk = (int)(k % 3);
+      emit(&c, 0, "s@x", 60, rr, big.p, big.n, (long)k); c07_free(&c);
+    }
+  }
+  free(big.p); free(huge.p); free(hops.p);
+}
+
 static void randoms(int nrandom, uint64_t seed) {
   c07_case c;
   for (int r = 0; r < nrandom; r++) {
@@ -225,7 +287,15 @@ static void randoms(int nrandom, uint64_t seed) {
     c.chunk = (int[]){ 0, 0, 1, 3, 100 }[h_below(5)];
     long cut = h_below(8) == 0 ? (long)h_below((uint32_t)m.n + 120) : -1;
     static const char *helos[] = { 0, 0, "client.example", "h.example", "a b" };
-    emit(&c, helos[h_below(5)], sender, nr, rr, m.p, m.n, cut);
+    const char *hl = helos[h_below(5)];
+    if (h_below(8) == 0) { static const char *odd[] = { "e\\", "a\"b", "(c", "d)", "<e>", "f,g;h", "\x7f\x80\xff", "i\\)j(" };   /* peer strings from the whole byte range */
+      int f = h_below(6); unsigned char v[16]; size_t vn = 1 + h_below(12);
+      for (size_t i = 0; i < vn; i++) { v[i] = (unsigned char)(1 + h_below(255)); if (v[i] == '\n') v[i] = '\\'; }
+      char *hx = h_below(3) ? c07_hexdup(v, vn) : c07_hexs(odd[h_below(8)]);
+      if (f < 5) { free(c.env[f]); c.env[f] = hx; }
+      else if (h_below(2)) emit_helohex = hx; else { emit_helohex = malloc(strlen(hx) + 2); sprintf(emit_helohex, "!%s", hx); free(hx); } }
+    if (h_below(25) == 0) c.proto = 's';                       /* the same session against the real qmail-queue */
+    emit(&c, hl, sender, nr, rr, m.p, m.n, cut);
     c07_free(&c); free(m.p);
   }
 }
@@ -234,11 +304,13 @@ int main(int argc, char **argv) {
   c07_init();
   if (argc > 1 && !strcmp(argv[1], "-")) {
     static char line[1 << 23];
-    while (fgets(line, sizeof line, stdin)) { c07_case c; if (c07_parse(line, &c) && c.proto == 'S' && c.npay >= 5) { c.npay = 5; one(&c); } }
+    while (fgets(line, sizeof line, stdin)) { c07_case c; if (c07_parse(line, &c) && toupper((unsigned char)c.proto) == 'S' && c.npay >= 5) { c.npay = 5; one(&c); } }
   } else {
     int nrandom = h_argi(argc, argv, 1, 1000); uint64_t seed = (uint64_t)h_argi(argc, argv, 2, 1);
-    c07_shard = h_argi(argc, argv, 3, 0); c07_nshards = h_argi(argc, argv, 4, 1);
+    c07_shard = h_argi(argc, argv, 3, 0); c07_nshards = h_argi(argc, argv, 4, 1); c07_thorough = nrandom > 50000;
     enumerate();
+    enumerate2();
+    enumerate_real();
     randoms(nrandom, seed);
   }
   c07_fini();
